@@ -13,6 +13,15 @@ def run(ctx):
     T = ctx.thorough
     ctx.tlc("Eye", "SPECIFICATION Spec\nINVARIANT CentreQuarter\nINVARIANT NearCentre\nCHECK_DEADLOCK FALSE\nCONSTANTS SpsVals = {8,16,32}\n Rs = {128}\n",
             note="sampling-index arithmetic for every grid position of t_opt")
+    # the allowance of EyeTrace's clause sampling-index-at-the-optimum-instant, checked against the design for every grid position, sps and eye grid
+    grids = "CONSTANTS SpsVals = {8,9,10,12,15,16,20,32,33,40,64}\n Rs = {8,9,10,12,16,20,24,30,31,32,33,40,64,100,128,512}\n"
+    ctx.tlc("Eye", "SPECIFICATION Spec\nINVARIANT IndexInRange\nINVARIANT IndexAtOptimum\nCHECK_DEADLOCK FALSE\n" + grids,
+            note="reported index = phase of the optimum instant, within the clause's allowance, for every (sps, eye grid, position)")
+    neg = ctx.tlc("Eye", "SPECIFICATION Spec\nINVARIANT TooTight\nCHECK_DEADLOCK FALSE\n" + grids, expect_ok=False, count=False,
+                  note="negative control: one sample of allowance less is violated by the design")
+    if not neg.violated:
+        from ..core import MachineryError
+        raise MachineryError("negative control of Eye (TooTight) did not fail: the index model is vacuous")
     import_repo()
     from opticomlib.devices import GET_EYE, LPF, PRBS
     from opticomlib.typing import gv, electrical_signal
@@ -68,7 +77,7 @@ def run(ctx):
     def ioff(e, sps):
         # the sampling index is the index of the optimum instant: circular distance (milli-samples, modulo one slot) between `i` and the
         # sample that sits at t_opt once the centring roll of the eye window (sps/2 - 1 samples) is undone - the conventions in use
-        # (truncate / round; -sps/2 or +sps/2) differ by at most two samples, a wrong mapping back from the eye grid by a fraction of a slot
+        # (truncate / round; -sps/2 or +sps/2) differ by at most three samples (Eye.tla, IndexAtOptimum), a wrong mapping back from the eye grid by a fraction of a slot
         try:
             ref = (float(e.t_opt) + 0.5) * sps - 0.5
             d = ((float(e.i) - ref + sps / 2.0) % sps) - sps / 2.0
